@@ -45,7 +45,8 @@ INVARIANTS %(inv)s
 CHECK_DEADLOCK FALSE
 """
 INV = "TypeOK Faithful IndexIndependent UniqueHolds AuditComplete"
-ALL_FIELDS = '{"s", "i", "d", "b", "n.x"}'
+ALL_FIELDS = '{"s", "i", "d", "b", "n.x", "n.y.z"}'
+NESTED_FIELDS = '{"n.x", "n.y.z"}'          # simulations that concentrate on the nested paths (depth 2 and 3 = the maximum)
 
 
 def cfg(**kw):
@@ -84,8 +85,10 @@ def run(chk, args):
     jobs.append(("mc-unique-code", cfg(fields='{"i"}', k=1, docs=3, revs=2, uniq="TRUE", keepst="TRUE"), 2, 900, ()))
     nsim, per, depth = (8, 120, 30) if thorough else (4, 30, 24)
     for i in range(nsim):
+        nested = i % 2 == 1
         jobs.append(("sim-%d" % i,
-                     cfg(fields=ALL_FIELDS, k=3, docs=6, revs=5, ops=depth, fail=4, composite="TRUE",
+                     cfg(fields=NESTED_FIELDS if nested else ALL_FIELDS, k=2 if nested else 3, docs=6, revs=5, ops=depth, fail=4,
+                         composite="FALSE" if nested else "TRUE",
                          addq="TRUE" if addfield_is_code else "FALSE", uniq="TRUE" if unique_is_code else "FALSE",
                          readops="TRUE", sim="TRUE", seedspace=4000, emit=depth, rich="TRUE", keepst="TRUE", inv="TypeOK Emit", view=""),
                      1, 1500, ("-simulate", "num=%d" % per, "-depth", str(depth + 2), "-seed", str(chk.seed * 1000 + i))))
@@ -172,11 +175,18 @@ def run(chk, args):
             "search:non-empty", "search:orderby", "search:paged", "addfield:non-empty-collection",
             "atom:STRING:EQ", "atom:INTEGER:LT", "atom:DOUBLE:GE", "atom:BOOLEAN:NE", "atom:LIKE",
             "class:plain", "class:unicode", "class:edge", "class:newline",
-            "replays:through-pkg-database", "proof:verified", "proof:altered-rejected", "probe:unique-race:pairs"]
+            "replays:through-pkg-database", "proof:verified", "proof:altered-rejected", "probe:unique-race:pairs",
+            # nested paths at the depth boundary: searches on the 3-level field that must return documents (replayed behaviours and
+            # probe), a unique index on it refusing a duplicate, ORDER BY on it, the 4-level field offered to AddField
+            "maxdepth:search-returns-documents:EQ", "maxdepth:search-returns-documents:LT", "maxdepth:search-returns-documents:GT",
+            "maxdepth:search-returns-documents:LIKE", "maxdepth:orderby",
+            "maxdepth:probe-search-finds-document", "maxdepth:probe-unique-index-refuses-duplicate"]
     missing = [k for k in need if ctr.get(k, 0) == 0]
     if missing:
         raise MachineryFault("vacuous replay, never reached: %s" % ", ".join(missing))
-    rare = ["rejected:removefield", "rejected:replace", "createindex:limited-index-creation", "replace:conflict"]
+    if ctr.get("toodeep:addfield-accepted", 0) + ctr.get("toodeep:addfield-refused", 0) == 0:
+        raise MachineryFault("vacuous replay: no field deeper than the maximum nesting was offered to AddField")
+    rare = ["maxdepth:unique-index-refused-duplicate", "rejected:removefield", "rejected:replace", "createindex:limited-index-creation", "replace:conflict"]
     if [k for k in rare if ctr.get(k, 0) == 0]:
         chk.notes.append({"not-reached-in-this-run": [k for k in rare if ctr.get(k, 0) == 0]})
     total = r.get("traces", 0)
@@ -186,7 +196,8 @@ def run(chk, args):
         chk.notes.append({"model-drift": "%d of %d replays stopped because the engine decided differently from the model (see drift notes)"
                                          % (ctr.get("replays:stopped-decision-differs", 0), total)})
 
-    chk.cov["rule"] = ("behaviours = TLC -simulate walks of spec/Docs.tla (5 typed fields incl. a nested path, 3 values + null + missing per "
+    chk.cov["rule"] = ("behaviours = TLC -simulate walks of spec/Docs.tla (6 typed fields incl. nested paths of depth 2 and 3 = the maximum; every "
+                       "other walk over the nested fields only; a 4-level field offered and refused; 3 values + null + missing per "
                        "field, up to 6 documents, random AND/OR queries, ORDER BY, offset/limit, writes by query) plus the counterexamples of "
                        "the pinned-code models; each is replayed on 3 twin collections (indexes of the behaviour / none / all) under 2 of 4 "
                        "concretisation classes (4 of 4 in the thorough tier) and partly through pkg/database with proofs; after every "
@@ -196,7 +207,7 @@ def run(chk, args):
     chk.cov["behaviours"] = len(behaviours)
     chk.assumptions += ["one writer, operations issued sequentially; before every write the harness waits until every index has caught up "
                         "(the stale-snapshot race of the insert path is exercised by a separate probe)",
-                        "field universe s:STRING i:INTEGER d:DOUBLE b:BOOLEAN n.x:INTEGER; values are order-preserving concretisations of 1..K "
+                        "field universe s:STRING i:INTEGER d:DOUBLE b:BOOLEAN n.x:INTEGER n.y.z:STRING (3 levels = document.DefaultDocumentMaxNestedFields); values are order-preserving concretisations of 1..K "
                         "(ASCII / multi-byte / 200-byte-prefix / newline strings; small, +-2^53 and +-9.2e18 integers; doubles up to "
                         "+-MaxFloat64, denormals, -0.0); non-finite numbers and non-integral INTEGER values only in directed probes",
                         "restart = Close + Open (crash durability is C03/C04's subject)",
